@@ -509,6 +509,116 @@ fn run(name: &str, j: &J) -> Result<bool, String> {
             let max_size = *jn.size().max().unwrap();
             Ok(!declared_unique && max_size >= 6)
         }
+        // C11: composite types — enumerate small struct / union / optional / list types and values: A ⊆ B and v ∈ A must give v ∈ B
+        "c11_composite_case" | "c11_composite_search" => {
+            fn lists() -> Vec<DataType> { let mut v = vec![]; for (a, b) in [(0, 3), (1, 5), (2, 5), (4, 10), (0, 10)] { for (lo, hi) in [(0, 20), (0, 5)] { v.push(DataType::list(DataType::integer_interval(lo, hi), a, b)); } } v }
+            fn list_values() -> Vec<Value> { let mut v = vec![]; for n in 0..=5usize { v.push(Value::list((0..n).map(|k| Value::integer(k as i64)))); v.push(Value::list((0..n).map(|_| Value::integer(7)))); } v }
+            fn optionals() -> Vec<DataType> { vec![DataType::optional(DataType::integer_interval(0, 5)), DataType::optional(DataType::integer_interval(0, 20)), DataType::optional(DataType::float_interval(0., 1.))] }
+            fn optional_values() -> Vec<Value> { vec![Value::none(), Value::some(Value::integer(3)), Value::some(Value::integer(12)), Value::some(Value::float(0.5))] }
+            fn structs() -> Vec<DataType> { let int = || DataType::integer_interval(0, 10); vec![
+                DataType::structured([("a", int())]), DataType::structured([("a", int()), ("b", DataType::Any)]), DataType::structured([("a", int()), ("b", DataType::float_interval(0., 1.))]),
+                DataType::structured([("a", int()), ("b", int())]), DataType::structured([("b", int())]) ] }
+            fn struct_values() -> Vec<Value> { vec![Value::structured([("a", Value::integer(5))]), Value::structured([("a", Value::integer(5)), ("b", Value::integer(3))]), Value::structured([("b", Value::integer(3))]), Value::structured([("a", Value::integer(5)), ("b", Value::float(0.5))])] }
+            let families: Vec<(&str, Vec<DataType>, Vec<Value>)> = vec![("list", lists(), list_values()), ("optional", optionals(), optional_values()), ("struct", structs(), struct_values())];
+            let want = j["family"].as_str();
+            for (fam, types, values) in &families {
+                if let Some(w) = want { if w != *fam { continue; } }
+                for (ia, a) in types.iter().enumerate() { for (ib, b) in types.iter().enumerate() { for (iv, v) in values.iter().enumerate() {
+                    if let (Some(x), Some(y), Some(z)) = (j["a"].as_u64(), j["b"].as_u64(), j["v"].as_u64()) { if (x as usize, y as usize, z as usize) != (ia, ib, iv) { continue; } }
+                    if a.is_subset_of(b) && a.contains(v) && !b.contains(v) {
+                        println!("  A = {}, B = {}, v = {}: A.is_subset_of(B) holds, v is in A and not in B", a, b, v);
+                        println!("QX-WITNESS {}", serde_json::json!({"family": fam, "a": ia, "b": ib, "v": iv}));
+                        return Ok(false);
+                    }
+                } } }
+            }
+            Ok(true)
+        }
+        // C14: a VALUES relation is declared UNIQUE only if its literals are pairwise distinct
+        "c14_values_case" | "c14_values_search" => {
+            use qrlew::relation::Constraint;
+            let check = |lits: &[i64]| -> Result<bool, String> {
+                let v: Relation = Relation::values().name("v").values(lits.iter().map(|x| Value::integer(*x)).collect::<Vec<_>>()).build();
+                let declared = matches!(v.schema()[0].constraint(), Some(Constraint::Unique) | Some(Constraint::PrimaryKey));
+                let mut d = lits.to_vec(); d.sort(); d.dedup();
+                if declared && d.len() != lits.len() { println!("  VALUES {:?} is declared {:?}", lits, v.schema()[0].constraint()); return Ok(false); }
+                Ok(true)
+            };
+            if name == "c14_values_case" {
+                let lits: Vec<i64> = j["values"].as_array().unwrap().iter().map(|x| x.as_i64().unwrap()).collect();
+                return check(&lits);
+            }
+            for n in 1..=4usize { let mut idx = vec![1i64; n]; loop {
+                if !check(&idx)? { println!("QX-WITNESS {}", serde_json::json!({"values": idx})); return Ok(false); }
+                let mut k = 0; while k < n { if idx[k] < 3 { idx[k] += 1; break; } idx[k] = 1; k += 1; } if k == n { break; }
+            } }
+            Ok(true)
+        }
+        // C02: whatever rewrite_with_differential_privacy returns must not read a protected table while accounting for no
+        // privacy loss at all (a necessary condition of "no un-noised path from a protected table to the result")
+        "c02_case" | "c02_search" => {
+            use qrlew::{hierarchy::Hierarchy, expr::Identifier, sql::parse, differential_privacy::DpParameters, synthetic_data::SyntheticData};
+            use std::sync::Arc;
+            fn tables(r: &Relation, out: &mut Vec<String>) { if let Relation::Table(t) = r { out.push(t.path().to_string()); } for i in r.inputs() { tables(i, out); } }
+            let mk = |name: &str| -> Relation { Relation::table().name(name).schema(vec![("id", DataType::integer_interval(0, 100)), ("a", DataType::float_interval(0., 10.)), ("k", DataType::integer_interval(0, 5))].into_iter().collect::<Schema>()).size(100).build() };
+            let rels: Vec<Relation> = vec![mk("t"), mk("u"), mk("p")];   // t, u protected; p public
+            let relations: Hierarchy<Arc<Relation>> = rels.iter().map(|t| (Identifier::from(t.name()), Arc::new(t.clone()))).collect();
+            let queries = ["SELECT a FROM t", "SELECT a, k FROM t WHERE a > 1", "SELECT sum(a) AS s FROM t", "SELECT k, count(a) AS c FROM t GROUP BY k", "SELECT a FROM p", "SELECT t.a FROM t JOIN p ON t.k = p.k", "SELECT a FROM t UNION SELECT a FROM u", "SELECT a FROM p UNION SELECT a FROM t"];
+            // synthetic data: none / for every table / only for `u` and `p` (the entry of `t` is missing)
+            let sds: Vec<(&str, Option<Vec<&str>>)> = vec![("none", None), ("full", Some(vec!["t", "u", "p"])), ("partial", Some(vec!["u", "p"]))];
+            let one = |q: &str, sd: &Option<Vec<&str>>| -> Option<String> {
+                let synthetic = sd.as_ref().map(|names| SyntheticData::new(names.iter().map(|n| (vec![n.to_string()], Identifier::from(vec![format!("synthetic_{}", n)]))).collect::<Hierarchy<Identifier>>()));
+                let relation = Relation::try_from(parse(q).ok()?.with(&relations)).ok()?;
+                let pu = PrivacyUnit::from(vec![("t", vec![], "id"), ("u", vec![], "id")]);
+                let relations2 = relations.clone();
+                let res = std::panic::catch_unwind(std::panic::AssertUnwindSafe(|| relation.rewrite_with_differential_privacy(&relations2, synthetic, pu, DpParameters::from_epsilon_delta(1., 1e-3))));
+                let rw = match res { Ok(Ok(r)) => r, _ => return None };   // a refusal (Err or panic) is not a leak
+                let mut read = vec![]; tables(rw.relation(), &mut read);
+                let protected: Vec<&String> = read.iter().filter(|p| p.as_str() == "t" || p.as_str() == "u").collect();
+                if !protected.is_empty() && rw.dp_event().is_no_op() { Some(format!("`{}` is rewritten into a relation that reads {:?} while the returned DpEvent is a no-op", q, protected)) } else { None }
+            };
+            std::panic::set_hook(Box::new(|_| {}));
+            if name == "c02_case" {
+                let sd = sds.iter().find(|(n, _)| Some(*n) == j["sd"].as_str()).map(|(_, s)| s.clone()).unwrap_or(None);
+                let r = one(j["query"].as_str().unwrap(), &sd);
+                if let Some(m) = &r { println!("  {}", m); }
+                return Ok(r.is_none());
+            }
+            for (sdn, sd) in &sds { for q in queries {
+                if let Some(m) = one(q, sd) { println!("  [synthetic data: {}] {}", sdn, m); println!("QX-WITNESS {}", serde_json::json!({"query": q, "sd": sdn})); return Ok(false); }
+            } }
+            Ok(true)
+        }
+        // C15 (second sentence): a bare column name present in two joined relations must be refused (or resolved by USING / NATURAL)
+        "c15_sql_case" | "c15_sql_search" => {
+            use qrlew::{hierarchy::Hierarchy, sql::parse};
+            use std::sync::Arc;
+            let mk = |name: &str, last: &str| -> Relation { Relation::table().name(name).path(vec!["schema".to_string(), name.to_string()]).schema(vec![("id", DataType::integer_interval(0, 100)), ("a", DataType::integer_interval(if name == "table_1" { 0 } else { -5 }, if name == "table_1" { 10 } else { 5 })), (last, DataType::float_interval(0., 1.))].into_iter().collect::<Schema>()).size(100).build() };
+            let rels = vec![mk("table_1", "b"), mk("table_2", "c")];
+            let relations: Hierarchy<Arc<Relation>> = rels.iter().map(|t| (vec!["schema".to_string(), t.name().to_string()], Arc::new(t.clone()))).collect();
+            // every query refers to the bare name `a`, which both inputs of the join have: accepting it is a violation
+            let queries = [
+                "SELECT a FROM table_1 JOIN table_2 ON table_1.id = table_2.id",
+                "SELECT a FROM schema.table_1 JOIN schema.table_2 ON schema.table_1.id = schema.table_2.id",
+                "SELECT a FROM table_1 AS x JOIN table_2 AS y ON x.id = y.id",
+                "SELECT a FROM (SELECT * FROM table_1 JOIN table_2 ON table_1.id = table_2.id) AS s",
+                "SELECT a FROM (SELECT * FROM schema.table_1 JOIN schema.table_2 ON schema.table_1.id = schema.table_2.id) AS s",
+                "SELECT a FROM (SELECT * FROM table_1 AS x JOIN table_2 AS y ON x.id = y.id) AS s",
+                "WITH s AS (SELECT * FROM schema.table_1 JOIN schema.table_2 ON schema.table_1.id = schema.table_2.id) SELECT a FROM s",
+            ];
+            let one = |q: &str| -> Option<String> {
+                let relations2 = relations.clone();
+                let r = std::panic::catch_unwind(std::panic::AssertUnwindSafe(|| parse(q).ok().and_then(|ast| Relation::try_from(ast.with(&relations2)).ok())));
+                match r { Ok(Some(rel)) => Some(format!("`{}` is accepted: schema {}", q, rel.schema())), _ => None }
+            };
+            std::panic::set_hook(Box::new(|_| {}));
+            if name == "c15_sql_case" { let r = one(j["query"].as_str().unwrap()); if let Some(m) = &r { println!("  {}", m); } return Ok(r.is_none()); }
+            for q in queries { if let Some(m) = one(q) { println!("  {}", m); println!("QX-WITNESS {}", serde_json::json!({"query": q})); return Ok(false); } }
+            Ok(true)
+        }
+        // C15: both oracles (Hierarchy lookups, then SQL name resolution)
+        "c15_any_search" => { if !run("c15_lookup_search", j)? { return Ok(false); } run("c15_sql_search", j) }
+        "c15_any_case" => { if j.get("query").is_some() { run("c15_sql_case", j) } else { run("c15_lookup_case", j) } }
         _ => Err(format!("unknown replay `{}`", name)),
     }
 }
